@@ -58,6 +58,7 @@ def verify(src, sid):
         rct, outt = sh("go test -vet=off -count=1 -timeout 25m $(go list ./... | grep -v libp2p)", cwd=wt, timeout=3000)
         failed_pkgs = re.findall(r"^FAIL[ \t]+(\S+)", outt, re.M)
         flaky = []
+        had_fail_lines = bool(failed_pkgs)
         for pkg in list(failed_pkgs):
             # the sandbox is loaded by other jobs: a package that passes on a re-run is counted as flaky, not as broken
             for attempt in range(3):
@@ -66,7 +67,7 @@ def verify(src, sid):
                     failed_pkgs.remove(pkg)
                     flaky.append(pkg)
                     break
-        if not failed_pkgs:
+        if had_fail_lines and not failed_pkgs:
             rct = 0
         ran["existing_tests"] = "go test ./... (without libp2p) in %.0fs: %s; passed only on re-run (load): %s" % (time.time() - t0, "all ok" if rct == 0 else "FAIL " + str(failed_pkgs), flaky)
         ok = rc0 == 0 and rcb == 0 and rc1 != 0 and rct == 0
